@@ -80,6 +80,34 @@ func init() {
 				ls = append(ls, nx)
 			}
 			c.emit(map[string]interface{}{"k": "glen", "res": um(geo.Length(ls) - sum), "resh": um(geo.LengthHaversine(ls) - sumh), "nt": 1})
+			// the same segments held by the other kinds: a ring (its stored segments, nothing added), two lines sharing the
+			// split vertex, a polygon of two rings, a collection of those - all sums of the segment distances
+			if i%4 == 0 && len(ls) >= 3 {
+				h := 1 + c.rng.Intn(len(ls)-2)
+				s1, s1h := 0.0, 0.0
+				for j := 0; j+1 < len(ls); j++ {
+					s1 += geo.Distance(ls[j], ls[j+1])
+					s1h += geo.DistanceHaversine(ls[j], ls[j+1])
+				}
+				var g orb.Geometry
+				w, wh := s1, s1h
+				switch c.rng.Intn(4) {
+				case 0:
+					g = orb.Ring(ls)
+				case 1:
+					g = orb.MultiLineString{ls[:h+1], ls[h:]}
+				case 2:
+					g = orb.Polygon{orb.Ring(ls), orb.Ring(ls[:h+1])}
+					for j := 0; j < h; j++ {
+						w += geo.Distance(ls[j], ls[j+1])
+						wh += geo.DistanceHaversine(ls[j], ls[j+1])
+					}
+				default:
+					g = orb.Collection{ls, orb.Point{1, 2}, orb.MultiLineString{ls}, orb.Collection{orb.Ring(ls)}}
+					w, wh = 3*s1, 3*s1h
+				}
+				c.emit(map[string]interface{}{"k": "glen", "res": um(geo.Length(g) - w), "resh": um(geo.LengthHaversine(g) - wh), "nt": 1})
+			}
 		}
 		// boxes with rational-sine parallels: Area = K * width * (sin top - sin bottom)
 		lats := []int{-90, -30, 0, 30, 90}
@@ -164,8 +192,16 @@ func init() {
 			} else if base < 0 {
 				sign = -1
 			}
+			// a collection sums over whatever it holds: polygons, a bare ring, a box, things without area, a nested collection
+			box := orb.Bound{Min: orb.Point{float64(lon0), float64(lat0)}, Max: orb.Point{float64(lon0 + 2), float64(lat0 + 1)}}
+			coll := orb.Collection{poly, orb.Point{3, 4}, r, orb.LineString(r), box, orb.Collection{mp, rev}}
+			collWant := pa + math.Abs(base) + geo.Area(box) + (pa + math.Abs(base)) + math.Abs(base)
+			multires := ppb(geo.Area(mp), pa+math.Abs(base))
+			if cr := ppb(geo.Area(coll), collWant); cr > multires {
+				multires = cr
+			}
 			c.emit(map[string]interface{}{"k": "garea", "ring": ring, "rel": rel, "sign": sign, "simple": simple,
-				"polyres": ppb(pa, want), "multires": ppb(geo.Area(mp), pa+math.Abs(base)), "nt": 1})
+				"polyres": ppb(pa, want), "multires": multires, "nt": 1})
 		}
 	})
 }
